@@ -328,14 +328,22 @@ P('C17', claimed=True, level='other', contracts=['base_netaddr_bind', 'synth_nod
   unreached=['what a real server does with the commands'])
 
 P('C18', claimed=True, level='other',
-  contracts=['base_osclib_parse'], drivers=['vf.drivers.C18'],
-  level_text=('Progress of the bundle parser (every iteration consumes 4 + size bytes with size >= 0, or '
-              'raises) is a discharged loop obligation. Pattern matching is compared with an independent '
+  contracts=['base_osclib_parse', 'base_responders'], drivers=['vf.drivers.C18'],
+  level_text=('Discharged: progress of the bundle parser (every iteration consumes 4 + size bytes with size >= 0, '
+              'or raises), the index laws of get_int/get_timetag/get_blob, and who fires: the sender filter '
+              '(same host and any-or-same port), the receiving-port filter, their conjunction, the argument '
+              'template filter (enough arguments and every template item accepts: None anything, a callable by its '
+              'truth value, else equality; quantified loop invariant) - each fires exactly once with the four '
+              'values unchanged iff its condition holds - and the exact-address dispatcher (every function '
+              'registered for the address once, in order; nobody for an unknown address). Pattern matching is '
+              'compared with an independent '
               'OSC 1.0 matcher for ALL pattern/address pairs up to length 4/4 (exhaustive small scope); '
               'dispatch and registries are checked on all histories of length <= 4 against a reference '
               'model; the receive entry point is fuzzed under a watchdog.'),
-  level_note=('re is an external engine, responders use dynamic registries: bounded. Decoder leniencies '
-              'inherited from python-osc are recorded as known findings.'))
+  level_note=('re is an external engine (pattern translation and matching: bounded), registries are dictionaries '
+              'of lists (add/remove/enable histories: bounded). In the filter contracts equality of dynamic values is '
+              'equality of the abstract values. Decoder leniencies inherited from python-osc are recorded as known '
+              'findings.'))
 
 P('C19', claimed=True, level='other',
   contracts=['synth_envelope', 'base_utils'], drivers=['vf.drivers.C19'],
